@@ -1184,6 +1184,8 @@ def connection_ends(doc):
 
 
 # fault classes of the property (load_model must raise) and extra classes of broken documents outside its list
+# zero as the schema lets it be written in an offset attribute (xsd:decimal): a valid document, must be loaded
+ZERO_OFFSETS = ['0', '0.0', '+0', '-0', '0.00', ' 0 ']
 PROPERTY_CLASSES = ['component-units', 'reaction', 'units-offset', 'units-cycle', 'units-dangling', 'units-duplicate',
                     'units-builtin-override', 'missing-component', 'missing-variable', 'both-sources', 'both-receivers',
                     'no-direction', 'non-adjacent', 'incompatible-units', 'two-sources', 'defined-twice',
@@ -1677,7 +1679,7 @@ def _inject_units(d, doc, kind, site, rng):
             # the schema allows a non-zero offset only in a simple definition (one <unit>, exponent 1): rule 5.4.2.7
             if len(u['elems']) != 1 or u['elems'][0].get('exponent') not in (None, '1', '1.0'):
                 return None
-            u['elems'][0]['offset'] = rng.choice(['273.15', '32', '-1', '5'])
+            u['elems'][0]['offset'] = rng.choice(['273.15', '32', '-1', '5', '0.5', '-0.25'])
         elif kind == 'units-cycle':
             u['elems'].append({'units': u['name'], 'exponent': '2'})
         else:
@@ -1760,7 +1762,7 @@ def neutral(doc, kind, rng):
     elif kind == 'unused-units':
         names = {u['name'] for u in d['units']}
         if 'spare_u' not in names:
-            _add(d, 'units', {'name': 'spare_u', 'elems': [{'units': 'volt', 'prefix': 'kilo'}, {'units': 'second', 'offset': '0'}]},
+            _add(d, 'units', {'name': 'spare_u', 'elems': [{'units': 'volt', 'prefix': 'kilo'}, {'units': 'second', 'offset': rng.choice(ZERO_OFFSETS)}]},
                  rng.choice(['first', 'middle', 'last']))
     elif kind == 'lonely-component':
         if not any(c['name'] == 'lonely' for c in d['components']):
